@@ -559,7 +559,7 @@ def moved_variant(v, rng, oracle='cells', int_only=False):
                 else:
                     cr = np.cross(pts[1] - pts[0], pts[-1] - pts[0])
                     j2 = int((cr ** 2).sum())
-                if j2 > 32768 or (max(int(M), 1) ** q) ** 2 * j2 > 8000 ** 2:
+                if j2 > 32768 or (max(int(M), 1) ** q) ** 2 * j2 > 2 ** 24:
                     return False
         return M <= 64 and max(int(M), 1) ** n < 2 ** 24 and den ** (2 * n) <= 65536 and (den == 1 or not exact_only)
 
@@ -694,9 +694,18 @@ def gen_integrate(tier, rng):
             nnum=1, nmot=1):
         d = DIM[kind]
         for reg in regions:
+            # one random monomial per degree; on the whole domain also the pure powers x_c^q of the largest degrees
+            # (the whole degree in ONE direction: what a rule that is short in one direction of a tensor / prism cell
+            # cannot integrate)
+            todo = []
             for q in degs:
                 mons = [a for a in monomials_upto(d, q) if sum(a) == q]
-                alpha = mons[int(rng.integers(len(mons)))]
+                todo.append((q, mons[int(rng.integers(len(mons)))]))
+            if reg['mode'] == 'all' and d >= 2 and len(degs):
+                for q in sorted(degs)[-2:]:
+                    if q >= 2:
+                        todo += [(q, tuple(q if c == c0 else 0 for c in range(d))) for c0 in range(d)]
+            for q, alpha in todo:
                 v = base_variant(kind, p, t, reg, alpha, box=box if reg['mode'] == 'all' else None)
                 orc = oracle if (reg['mode'] == 'all' or oracle == 'cells') else 'cells'
                 if orc == 'cells' and q > (4 if d <= 2 else 3):
@@ -768,6 +777,9 @@ def gen_integrate(tier, rng):
         p, t = U.hex_grid(*dims)
         add('hex', 'U3h', p, t, regions_cells(t.shape[1], rng, 1), range(0, 4), 'cells')
         add('hex', 'U3h-box', p, t, [{'dom': 'cells', 'mode': 'all'}], (4, 5), 'box', box=([0, 0, 0], list(dims)))
+        if dims == (2, 1, 1):
+            add('hex', 'default-order', p, t, [{'dom': 'cells', 'mode': 'all'}], (2 * elem_of('ElementHex1').maxdeg,), 'box',
+                box=([0, 0, 0], list(dims)), order_mode='default', elem='ElementHex1', refine=False)
     p, t = U.hex_grid(2, 1, 1)
     ps = p.copy()
     ps[0] += ps[2]
@@ -779,6 +791,8 @@ def gen_integrate(tier, rng):
         p, t = U.wedge_extrude(p2, t2, 2)
         add('wedge', 'UW', p, t, regions_cells(t.shape[1], rng, 1), range(0, 4), 'cells', refine=False)
         add('wedge', 'UW-box', p, t, [{'dom': 'cells', 'mode': 'all'}], (4, 5), 'box', box=([0, 0, 0], [1, 1, 2]), refine=False)
+        add('wedge', 'default-order', p, t, [{'dom': 'cells', 'mode': 'all'}], (2 * elem_of('ElementWedge1').maxdeg,), 'box',
+            box=([0, 0, 0], [1, 1, 2]), order_mode='default', elem='ElementWedge1', refine=False)
     # ---- facets
     frecs = []
 
